@@ -29,7 +29,7 @@ for f in kf['findings']:
     if b.returncode != 0:
         sh('git', '-C', '/repo', 'checkout', '--', '.')
         results[key] = {'property': pid, 'commit': c, 'verdict': 'reverted tree does not build'}
-        print(key, 'does not build'); continue
+        print(key, 'does not build', (b.stdout + b.stderr)[-400:]); continue
     verdict = {}
     for tier in (['quick', 'thorough'] if thorough else ['quick']):
         p = sh('./check', pid, '--tier', tier, cwd=ROOT)
